@@ -159,12 +159,29 @@ def run(case):
             with tempfile.TemporaryDirectory() as td:
                 path = os.path.join(td, "cache.pickle")
 
-                def bare(lst):
-                    calls.append(list(lst))
-                    return lst[0] * lst[0] + 1
+                # every third history (decided by the case text) hands the number over as an EVENT: a Chronon that carries
+                # it as the name of a parameter (p<a>); the "m" operations re-label ONE persistent Chronon in place
+                as_event = sum(map(ord, sx.show(case))) % 3 == 0
+
+                def val(arg):
+                    if isinstance(arg, ce.Chronon):
+                        return [int(n[1:]) for n in vars(arg) if n.startswith("p") and n[1:].lstrip("-").isdigit()][0]
+                    return arg[0]
+
+                def wrap(a):
+                    if not as_event:
+                        return [a]
+                    c = ce.Chronon(1)
+                    setattr(c, f"p{a}", 1)
+                    return c
+
+                def bare(arg):
+                    a = val(arg)
+                    calls.append([a])
+                    return a * a + 1
                 f1 = cu.compute_lazy(path, force_to_compute=force)(bare)
                 f2 = cu.compute_lazy(path, force_to_compute=force)(bare)
-                box = [0]            # ONE argument object, mutated in place by the "m" operations
+                box = wrap(0)        # ONE argument object, mutated in place by the "m" operations
                 out = ["ok"]
                 for op in case[2:]:
                     if op[0] == "del":
@@ -175,12 +192,17 @@ def run(case):
                     a = int(op[1])
                     n0 = len(calls)
                     if op[0] == "m":
-                        box[0] = a
+                        if as_event:
+                            for n in [n for n in vars(box) if n.startswith("p") and n[1:].lstrip("-").isdigit()]:
+                                delattr(box, n)
+                            setattr(box, f"p{a}", 1)
+                        else:
+                            box[0] = a
                         v = f1(box)
                     elif op[0] == "c2":
-                        v = f2([a])
+                        v = f2(wrap(a))
                     else:
-                        v = f1([a])
+                        v = f1(wrap(a))
                     out.append([v, "1" if len(calls) > n0 else "0"])
             return out
         if k == "scale":
